@@ -69,6 +69,7 @@ static char fdclass(int fd) {
   return cache[fd];
 }
 
+static void bkp_write_seen(void);
 static void fx(int kind, int fd, long long off, long long len) {
   if (kind == FX_WALREC) {
     long long v[3] = { fd, off, len };
@@ -80,7 +81,10 @@ static void fx(int kind, int fd, long long off, long long len) {
   }
   if (!g_fx_on) return;
   char c = kind == FX_WALREC ? 'R' : kind == FX_MSYNC ? 'M' : fdclass(fd);
-  if (c == 'O') return; // trace file, backup target etc. are not effects on the store
+  if (c == 'O') { // trace file, backup target etc. are not effects on the store
+    if (kind == FX_WRITE && fd != g_trace_fd) bkp_write_seen();
+    return;
+  }
   if (g_trace_fx) tr("F %lld %d %c %lld %lld\n", g_fx_n, kind, c, off, len);
   if (g_fx_n == g_killat) _exit(0);
   g_fx_n++;
@@ -255,6 +259,93 @@ static void snap(const char *src, const char *dst) {
 
 static char g_dump[1 << 20];
 
+// ---- execution of one history operation (also called from the effect callback while a backup copies)
+static struct iwkv *g_kv;
+static const char *g_dir;
+static int g_flags;
+static char **g_ops;
+static int g_nops;
+// backup injection: while iwkv_online_backup copies the main file (no lock held), the next g_inj_n operations of
+// the history are executed at the g_inj_at-th write to the backup target - a deterministic stand-in for a
+// concurrent writer thread at that point of the copy
+static int g_bkp_active, g_bkp_writes, g_inj_at, g_inj_from, g_inj_n, g_inj_done, g_bkp_main_chunks;
+
+static void exec_op(int i) {
+  static uint8_t vbuf[1 << 22];
+  struct iwkv *kv = g_kv;
+  char opc[4096];
+  snprintf(opc, sizeof(opc), "%s", g_ops[i]);
+  char *op = opc;
+  tr("B %d\n", i);
+  iwrc rc = 0;
+  int dumpit = 0;
+  if (op[0] == 'p' || op[0] == 'd') {
+    uint32_t dbid = (uint32_t) (op[1] - '0');
+    char *f[4] = { 0 }; int nf = 0; char *sp = 0;
+    for (char *t = strtok_r(op + 3, ":", &sp); t && nf < 4; t = strtok_r(0, ":", &sp)) f[nf++] = t;
+    uint8_t *kb; size_t kl = unhex(f[0], &kb);
+    struct iwdb *db = 0;
+    int on = g_fx_on;
+    g_fx_on = 0; // looking up an existing db handle has no effects; creation is a separate op
+    rc = iwhmap_get_u32(kv->dbs, dbid) ? iwkv_db(kv, dbid, 0, &db) : IWKV_ERROR_NOTFOUND;
+    g_fx_on = on;
+    if (!rc) {
+      struct iwkv_val k = { .data = kb, .size = kl };
+      if (op[0] == 'p') {
+        size_t vl = (size_t) atoll(f[1]);
+        if (vl > sizeof(vbuf)) vl = sizeof(vbuf);
+        genval(vbuf, vl, (unsigned) atoi(f[2]));
+        struct iwkv_val v = { .data = vbuf, .size = vl };
+        rc = iwkv_put(db, &k, &v, 0);
+      } else {
+        rc = iwkv_del(db, &k, 0);
+      }
+    }
+    free(kb);
+  } else if (op[0] == 's') {
+    rc = iwkv_sync(kv, 0); dumpit = 1;
+  } else if (op[0] == 'c') {
+    rc = iwal_test_checkpoint(kv); dumpit = 1;
+  } else if (op[0] == 'n') {
+    struct iwdb *db = 0;
+    rc = iwkv_db(kv, (uint32_t) (op[1] - '0'), 0, &db); dumpit = 1;
+  } else if (op[0] == 'b') {
+    // b<at>:<n>  online backup into <dir>/bkp, the next n operations run at the at-th write to the target
+    char bp[700]; uint64_t ts = 0;
+    snprintf(bp, sizeof(bp), "%s/bkp", g_dir);
+    g_inj_at = atoi(op + 1);
+    char *c = strchr(op, ':');
+    g_inj_n = c ? atoi(c + 1) : 0;
+    if (i + 1 + g_inj_n > g_nops) g_inj_n = g_nops - i - 1;
+    g_inj_from = i + 1; g_inj_done = 0; g_bkp_writes = 0;
+    g_bkp_main_chunks = (int) ((fsize(g_dbpath) + 16383) / 16384);
+    g_bkp_active = 1;
+    rc = iwkv_online_backup(kv, &ts, bp);
+    g_bkp_active = 0;
+    tr("K %d %d\n", g_inj_done, g_bkp_writes);
+  }
+  tr("E %d %s %lld %lld\n", i, rcs(rc), fsize(g_walpath), fsize(g_dbpath));
+  if (dumpit && !rc && (g_flags & 2)) {
+    int on = g_fx_on;
+    g_fx_on = 0;
+    dump(kv, g_dump, sizeof(g_dump));
+    g_fx_on = on;
+    tr("D %d %s\n", i, g_dump);
+  }
+}
+
+static void bkp_write_seen(void) {
+  if (!g_bkp_active) return;
+  g_bkp_writes++;
+  // only while the main file is being copied: later stages hold the exclusive lock
+  if (g_bkp_writes == g_inj_at && !g_inj_done && g_inj_at <= g_bkp_main_chunks) {
+    g_bkp_active = 0;
+    for (int k = 0; k < g_inj_n; ++k) exec_op(g_inj_from + k);
+    g_inj_done = g_inj_n;
+    g_bkp_active = 1;
+  }
+}
+
 // flags: 1 = trace every effect, 2 = record a dump after every successful sync/checkpoint/db creation,
 //        4 = snapshot the files after open (db0, wal0) and trace every listener call
 static int child_run(const char *dir, int crc, int fresh, long long killat, int flags, char **ops, int nops) {
@@ -275,54 +366,11 @@ static int child_run(const char *dir, int crc, int fresh, long long killat, int 
     snprintf(sp, sizeof(sp), "%s/wal0", dir); snap(g_walpath, sp);
     tap(kv);
   }
+  g_kv = kv; g_dir = dir; g_flags = flags; g_ops = ops; g_nops = nops;
   g_killat = killat; g_trace_fx = flags & 1; g_fx_n = 0; g_fx_on = 1;
-  static uint8_t vbuf[1 << 22];
   for (int i = 0; i < nops; ++i) {
-    char *op = ops[i];
-    tr("B %d\n", i);
-    rc = 0;
-    int dumpit = 0;
-    if (op[0] == 'p' || op[0] == 'd') {
-      uint32_t dbid = (uint32_t) (op[1] - '0');
-      char *f[4] = { 0 }; int nf = 0; char *sp = 0;
-      for (char *t = strtok_r(op + 3, ":", &sp); t && nf < 4; t = strtok_r(0, ":", &sp)) f[nf++] = t;
-      uint8_t *kb; size_t kl = unhex(f[0], &kb);
-      struct iwdb *db = 0;
-      g_fx_on = 0; // looking up an existing db handle has no effects; creation is a separate op
-      rc = iwhmap_get_u32(kv->dbs, dbid) ? iwkv_db(kv, dbid, 0, &db) : IWKV_ERROR_NOTFOUND;
-      g_fx_on = 1;
-      if (!rc) {
-        struct iwkv_val k = { .data = kb, .size = kl };
-        if (op[0] == 'p') {
-          size_t vl = (size_t) atoll(f[1]);
-          if (vl > sizeof(vbuf)) vl = sizeof(vbuf);
-          genval(vbuf, vl, (unsigned) atoi(f[2]));
-          struct iwkv_val v = { .data = vbuf, .size = vl };
-          rc = iwkv_put(db, &k, &v, 0);
-        } else {
-          rc = iwkv_del(db, &k, 0);
-        }
-      }
-      free(kb);
-    } else if (op[0] == 's') {
-      rc = iwkv_sync(kv, 0); dumpit = 1;
-    } else if (op[0] == 'c') {
-      rc = iwal_test_checkpoint(kv); dumpit = 1;
-    } else if (op[0] == 'n') {
-      struct iwdb *db = 0;
-      rc = iwkv_db(kv, (uint32_t) (op[1] - '0'), 0, &db); dumpit = 1;
-    } else if (op[0] == 'b') {
-      char bp[700]; uint64_t ts = 0;
-      snprintf(bp, sizeof(bp), "%s/bkp", dir);
-      rc = iwkv_online_backup(kv, &ts, bp);
-    }
-    tr("E %d %s %lld %lld\n", i, rcs(rc), fsize(g_walpath), fsize(g_dbpath));
-    if (dumpit && !rc && (flags & 2)) {
-      g_fx_on = 0;
-      dump(kv, g_dump, sizeof(g_dump));
-      g_fx_on = 1;
-      tr("D %d %s\n", i, g_dump);
-    }
+    exec_op(i);
+    if (ops[i][0] == 'b') i += g_inj_done; // executed inside the backup
   }
   g_fx_on = 0;
   tr("N %lld\n", g_fx_n);
